@@ -2,17 +2,26 @@ package reactor
 
 // C10, layer 2 — retention state of a reactor-owned channel. A rapid state
 // machine interleaves log growth, commit (HW) advances, durable checkpoint
-// results, follower progress, role changes and ApplyRetentionBoundary with
-// arbitrary (also regressing and overshooting) boundaries and trim budgets.
-// The store is the in-memory store behind a recording wrapper.
+// writes (directly, and through the reactor's committed-checkpoint path),
+// follower progress, role changes, restarts from the store and
+// ApplyRetentionBoundary with arbitrary (also regressing, overshooting and
+// retried) boundaries and trim budgets. The store is the in-memory store behind
+// a recording wrapper that also injects store faults at generated points:
+// StoreCheckpoint / TrimMessagesThrough / AdoptRetentionBoundary returning an
+// I/O error or a cancelled context, either before anything was written or
+// after the write was applied (lost acknowledgement).
 // Invariants: RetentionThroughSeq / LocalRetentionThroughSeq /
 // PhysicalRetentionThroughSeq (runtime and store) never move backwards; a
 // physical trim is only issued, and rows only disappear, at or below
-// min(HW, CheckpointHW, LEO[, min ISR match on a leader]) as they stood when
-// the request was handled; plus the pure gate retentionTrimDecision.
+// min(HW, CheckpointHW, DURABLE checkpoint HW in the store, LEO[, min ISR match
+// on a leader]) as they stood when the request was handled; at every step the
+// store (what a restarted node would load) holds every row above its durable
+// checkpoint HW and its physical boundary is not above that checkpoint; plus
+// the pure gate retentionTrimDecision.
 
 import (
 	"context"
+	"errors"
 	"fmt"
 	"strings"
 	"sync"
@@ -27,6 +36,20 @@ import (
 	"verif.local/kit"
 )
 
+var verifC10ErrInjected = errors.New("verif C10: injected store I/O error")
+
+// store faults a case can arm for the next matching store call
+const (
+	verifC10FaultNone        = "none"
+	verifC10FaultCpErr       = "checkpoint-error"     // StoreCheckpoint fails, nothing written
+	verifC10FaultCpCancel    = "checkpoint-cancelled" // StoreCheckpoint returns context.Canceled, nothing written
+	verifC10FaultCpLostAck   = "checkpoint-lost-ack"  // StoreCheckpoint written, error returned
+	verifC10FaultTrimErr     = "trim-error"           // TrimMessagesThrough fails, nothing deleted
+	verifC10FaultTrimLostAck = "trim-lost-ack"        // TrimMessagesThrough applied, error returned
+	verifC10FaultAdoptErr    = "adopt-error"          // AdoptRetentionBoundary fails, nothing written
+	verifC10FaultAdoptLost   = "adopt-lost-ack"       // AdoptRetentionBoundary applied, error returned
+)
+
 type verifC10TrimCall struct {
 	through uint64
 	opts    store.RetentionTrimOptions
@@ -34,11 +57,21 @@ type verifC10TrimCall struct {
 	err     error
 }
 
+type verifC10CpCall struct {
+	hw        uint64
+	err       error
+	persisted bool
+}
+
 type verifC10RecFactory struct {
 	inner store.Factory
 	mu    sync.Mutex
 	trims []verifC10TrimCall
+	cps   []verifC10CpCall
 	adopt []uint64
+	// armed is consumed by the first store call of the matching kind
+	armed    string
+	consumed bool
 }
 
 func (f *verifC10RecFactory) ChannelStore(key ch.ChannelKey, id ch.ChannelID) (store.ChannelStore, error) {
@@ -49,24 +82,94 @@ func (f *verifC10RecFactory) ChannelStore(key ch.ChannelKey, id ch.ChannelID) (s
 	return &verifC10RecStore{ChannelStore: cs, f: f}, nil
 }
 
+// take reports (and consumes) the armed fault if it is one of kinds.
+func (f *verifC10RecFactory) take(kinds ...string) string {
+	f.mu.Lock()
+	defer f.mu.Unlock()
+	for _, k := range kinds {
+		if f.armed == k && !f.consumed {
+			f.consumed = true
+			return k
+		}
+	}
+	return verifC10FaultNone
+}
+
+func (f *verifC10RecFactory) arm(kind string) {
+	f.mu.Lock()
+	f.armed, f.consumed = kind, false
+	f.mu.Unlock()
+}
+
+// disarm clears the plan and reports whether the armed fault was hit.
+func (f *verifC10RecFactory) disarm() (string, bool) {
+	f.mu.Lock()
+	defer f.mu.Unlock()
+	k, c := f.armed, f.consumed
+	f.armed, f.consumed = "", false
+	return k, c
+}
+
 type verifC10RecStore struct {
 	store.ChannelStore
 	f *verifC10RecFactory
 }
 
+func (s *verifC10RecStore) StoreCheckpoint(ctx context.Context, checkpoint ch.Checkpoint) error {
+	fault := s.f.take(verifC10FaultCpErr, verifC10FaultCpCancel, verifC10FaultCpLostAck)
+	call := verifC10CpCall{hw: checkpoint.HW}
+	switch fault {
+	case verifC10FaultCpErr:
+		call.err = verifC10ErrInjected
+	case verifC10FaultCpCancel:
+		call.err = context.Canceled
+	default:
+		call.err = s.ChannelStore.StoreCheckpoint(ctx, checkpoint)
+		call.persisted = call.err == nil
+		if fault == verifC10FaultCpLostAck && call.err == nil {
+			call.err = verifC10ErrInjected
+		}
+	}
+	s.f.mu.Lock()
+	s.f.cps = append(s.f.cps, call)
+	s.f.mu.Unlock()
+	return call.err
+}
+
 func (s *verifC10RecStore) TrimMessagesThrough(ctx context.Context, through uint64, opts store.RetentionTrimOptions) (store.RetentionTrimResult, error) {
-	res, err := s.ChannelStore.TrimMessagesThrough(ctx, through, opts)
+	fault := s.f.take(verifC10FaultTrimErr, verifC10FaultTrimLostAck)
+	var res store.RetentionTrimResult
+	var err error
+	if fault == verifC10FaultTrimErr {
+		err = verifC10ErrInjected
+	} else {
+		res, err = s.ChannelStore.TrimMessagesThrough(ctx, through, opts)
+		if fault == verifC10FaultTrimLostAck && err == nil {
+			err = verifC10ErrInjected
+		}
+	}
 	s.f.mu.Lock()
 	s.f.trims = append(s.f.trims, verifC10TrimCall{through: through, opts: opts, result: res, err: err})
 	s.f.mu.Unlock()
-	return res, err
+	if err != nil {
+		return store.RetentionTrimResult{}, err
+	}
+	return res, nil
 }
 
 func (s *verifC10RecStore) AdoptRetentionBoundary(ctx context.Context, through uint64, cursor string) (uint64, error) {
+	fault := s.f.take(verifC10FaultAdoptErr, verifC10FaultAdoptLost)
+	if fault == verifC10FaultAdoptErr {
+		return 0, verifC10ErrInjected
+	}
 	s.f.mu.Lock()
 	s.f.adopt = append(s.f.adopt, through)
 	s.f.mu.Unlock()
-	return s.ChannelStore.AdoptRetentionBoundary(ctx, through, cursor)
+	n, err := s.ChannelStore.AdoptRetentionBoundary(ctx, through, cursor)
+	if fault == verifC10FaultAdoptLost && err == nil {
+		return 0, verifC10ErrInjected
+	}
+	return n, err
 }
 
 func (f *verifC10RecFactory) takeTrims() []verifC10TrimCall {
@@ -77,13 +180,22 @@ func (f *verifC10RecFactory) takeTrims() []verifC10TrimCall {
 	return out
 }
 
+func (f *verifC10RecFactory) takeCheckpoints() []verifC10CpCall {
+	f.mu.Lock()
+	defer f.mu.Unlock()
+	out := f.cps
+	f.cps = nil
+	return out
+}
+
 type verifC10Sink struct{ results chan worker.Result }
 
 func (s verifC10Sink) Complete(r worker.Result) { s.results <- r }
 
-// verifC10Cover: the highest sequence a physical trim may touch.
-func verifC10Cover(st *machine.ChannelState) uint64 {
-	bound := min(st.HW, st.CheckpointHW, st.LEO)
+// verifC10Cover: the highest sequence a physical trim may touch, given the
+// reactor-owned state and the checkpoint HW that is durable in the store.
+func verifC10Cover(st *machine.ChannelState, durableCheckpointHW uint64) uint64 {
+	bound := min(st.HW, st.CheckpointHW, durableCheckpointHW, st.LEO)
 	if st.Role == ch.RoleLeader {
 		for _, node := range st.ISR {
 			if node == st.LocalNode {
@@ -127,6 +239,8 @@ func TestVerifC10ReactorRetention(t *testing.T) {
 			meta.ISR = []ch.NodeID{1, 2, 3}
 		}
 		meta.MinISR = rapid.IntRange(1, len(meta.ISR)).Draw(rt, "minISR")
+		// cs is the unwrapped store handle: the harness' own writes and all
+		// oracle reads bypass the fault injection
 		cs, _ := mem.ChannelStore(meta.Key, id)
 		var nextID uint64
 		appendRows := func(n int) {
@@ -157,20 +271,52 @@ func TestVerifC10ReactorRetention(t *testing.T) {
 			rt.Fatalf("VERIF-MACHINERY pools: %v", err)
 		}
 		defer pools.Close()
-		r := NewReactor(ReactorConfig{ID: 0, LocalNode: 1, Store: rec, Pools: pools, MailboxSize: 16})
-		mf := NewFuture()
-		r.handleApplyMeta(Event{Kind: EventApplyMeta, Key: meta.Key, Meta: meta, Future: mf})
-		mctx, cancel := context.WithTimeout(ctx, 20*time.Second)
-		_, err = mf.Await(mctx)
-		cancel()
-		if err != nil {
-			rt.Fatalf("VERIF-MACHINERY apply meta: %v", err)
+
+		// the node under test: rebuilt from the store by boot() (first start and
+		// every generated restart)
+		var r *Reactor
+		var rc *runtimeChannel
+		var st *machine.ChannelState
+		boot := func() {
+			r = NewReactor(ReactorConfig{ID: 0, LocalNode: 1, Store: rec, Pools: pools, MailboxSize: 16})
+			mf := NewFuture()
+			r.handleApplyMeta(Event{Kind: EventApplyMeta, Key: meta.Key, Meta: meta, Future: mf})
+			mctx, cancel := context.WithTimeout(ctx, 20*time.Second)
+			_, err := mf.Await(mctx)
+			cancel()
+			if err != nil {
+				rt.Fatalf("VERIF-MACHINERY apply meta: %v", err)
+			}
+			rc = r.channels[meta.Key]
+			if rc == nil || rc.state == nil {
+				rt.Fatalf("VERIF-MACHINERY channel not loaded")
+			}
+			st = rc.state
 		}
-		rc := r.channels[meta.Key]
-		if rc == nil || rc.state == nil {
-			rt.Fatalf("VERIF-MACHINERY channel not loaded")
+		boot()
+
+		// durable: what a restarted node would load from the store
+		durable := func() store.InitialState {
+			init, err := cs.Load(ctx)
+			if err != nil {
+				rt.Fatalf("VERIF-MACHINERY load: %v", err)
+			}
+			return init
 		}
-		st := rc.state
+		// pump delivers worker completions to the reactor until cond holds
+		// (deterministic: no time windows; the deadline is machinery only)
+		pump := func(what string, cond func() bool) {
+			deadline := time.NewTimer(30 * time.Second)
+			defer deadline.Stop()
+			for !cond() {
+				select {
+				case wr := <-sink.results:
+					r.handleWorkerResult(Event{Kind: EventWorkerResult, Worker: wr})
+				case <-deadline.C:
+					rt.Fatalf("VERIF-MACHINERY %s not completed in 30s", what)
+				}
+			}
+		}
 
 		type retSnap struct{ ret, local, phys, sLocal, sPhys uint64 }
 		snap := func() retSnap {
@@ -184,7 +330,156 @@ func TestVerifC10ReactorRetention(t *testing.T) {
 			rt.Fatalf("%s\n  history: %s", fmt.Sprintf(f, a...), strings.Join(trace, " ; "))
 		}
 		var sawRegress, sawBlocked, sawTrim, sawOvershoot, sawISRBlock bool
+		var sawCpLagBlock, sawRetentionCpOK, sawRetentionCpFailed, sawRetentionCpLostAck, sawFailedCpReapplied, sawFailedCpReappliedStillBlocked bool
+		var sawTrimFault, sawAdoptFault, sawReactorCp, sawReactorCpFailed, sawRestart, sawRetry bool
 		nApply := 0
+		var lastThrough uint64
+		// the last retention-owned checkpoint write that failed without reaching
+		// the store: attempted HW and the durable checkpoint HW at that moment
+		var failedCpHW, failedCpDurable uint64
+		everStored := map[uint64]bool{}
+		var maxStored uint64
+		for seq := range verifC10PresentSeqs(cs) {
+			everStored[seq] = true
+			maxStored = max(maxStored, seq)
+		}
+
+		applyBoundary := func(rt *rapid.T) {
+			dur := durable().CheckpointHW
+			var through uint64
+			throughKind := rapid.IntRange(0, 3).Draw(rt, "throughKind")
+			if failedCpHW > 0 && dur == failedCpDurable && throughKind < 2 && rapid.Bool().Draw(rt, "retryAfterFailedCheckpoint") {
+				throughKind = 2 // a blocked boundary is what the retention worker comes back with
+			}
+			switch throughKind {
+			case 2: // the retention worker retries the boundary it applied last
+				through = lastThrough
+			case 3: // a boundary that is committed but not yet durably checkpointed
+				if st.HW > dur {
+					through = dur + 1 + uint64(rapid.IntRange(0, int(st.HW-dur)-1).Draw(rt, "aboveCheckpoint"))
+				}
+			}
+			if through == 0 {
+				through = uint64(rapid.IntRange(1, int(st.LEO)+2).Draw(rt, "through"))
+			}
+			opts := ch.RetentionApplyOptions{}
+			if rapid.Bool().Draw(rt, "hasMaxMessages") {
+				opts.MaxTrimMessages = rapid.IntRange(1, 3).Draw(rt, "maxMessages")
+			}
+			if rapid.IntRange(0, 2).Draw(rt, "hasMaxBytes") == 0 {
+				opts.MaxTrimBytes = rapid.IntRange(1, 12).Draw(rt, "maxBytes")
+			}
+			// fault plan for this request (guided by what the request is about to
+			// do, so that armed faults are mostly reached; the oracle does not
+			// depend on this guess)
+			faults := []string{verifC10FaultNone, verifC10FaultNone, verifC10FaultNone, verifC10FaultNone, verifC10FaultAdoptErr, verifC10FaultAdoptLost}
+			if through > st.PhysicalRetentionThroughSeq && through <= st.HW && through > dur {
+				faults = append(faults, verifC10FaultCpErr, verifC10FaultCpErr, verifC10FaultCpErr, verifC10FaultCpCancel, verifC10FaultCpCancel, verifC10FaultCpLostAck)
+			} else {
+				faults = append(faults, verifC10FaultTrimErr, verifC10FaultTrimLostAck)
+			}
+			fault := rapid.SampledFrom(faults).Draw(rt, "fault")
+
+			cover := verifC10Cover(st, dur)
+			before := verifC10PresentSeqs(cs)
+			if through < st.RetentionThroughSeq {
+				sawRegress = true
+			}
+			if through > st.LEO {
+				sawOvershoot = true
+			}
+			if nApply > 0 && through == lastThrough {
+				sawRetry = true
+			}
+			reappliedAfterFailedCp := failedCpHW > 0 && dur == failedCpDurable && through > dur && through <= failedCpHW && through > st.PhysicalRetentionThroughSeq
+			if reappliedAfterFailedCp {
+				sawFailedCpReapplied = true
+			}
+			note("apply(through=%d,%+v,fault=%s) [hw=%d cp=%d durable=%d leo=%d role=%v cover=%d]", through, opts, fault, st.HW, st.CheckpointHW, dur, st.LEO, st.Role, cover)
+			rec.takeTrims()
+			rec.takeCheckpoints()
+			rec.arm(fault)
+			fut := NewFuture()
+			r.handleApplyRetentionBoundary(Event{Kind: EventApplyRetentionBoundary, Key: meta.Key, Future: fut, Context: ctx,
+				RetentionApply: ch.RetentionApplyRequest{ChannelID: id, ThroughSeq: through, Options: opts}})
+			// drive worker completions until the request is answered and the
+			// retention-owned checkpoint (if one was submitted) has completed
+			pump("retention request", func() bool {
+				select {
+				case <-fut.Done():
+					return rc.retentionCheckpointOp == 0
+				default:
+					return false
+				}
+			})
+			_, faultHit := rec.disarm()
+			result := fut.Result()
+			ferr := result.Err
+			nApply++
+			lastThrough = through
+			if ferr != nil {
+				injected := faultHit && errors.Is(ferr, verifC10ErrInjected) &&
+					(fault == verifC10FaultTrimErr || fault == verifC10FaultTrimLostAck || fault == verifC10FaultAdoptErr || fault == verifC10FaultAdoptLost)
+				if !injected {
+					fail("ApplyRetentionBoundary(through=%d): %v", through, ferr)
+				}
+				note("→err(injected)")
+				if fault == verifC10FaultTrimErr || fault == verifC10FaultTrimLostAck {
+					sawTrimFault = true
+				} else {
+					sawAdoptFault = true
+				}
+			}
+			for _, cp := range rec.takeCheckpoints() {
+				switch {
+				case cp.err == nil:
+					sawRetentionCpOK = true
+				case cp.persisted:
+					sawRetentionCpLostAck = true
+				default:
+					sawRetentionCpFailed = true
+					failedCpHW, failedCpDurable = cp.hw, dur
+				}
+				note("→retentionCheckpoint(hw=%d,err=%v,persisted=%v)", cp.hw, cp.err != nil, cp.persisted)
+			}
+			res := result.RetentionApply
+			for _, call := range rec.takeTrims() {
+				if call.through > cover {
+					fail("physical trim issued through %d although only %d is covered (hw=%d checkpoint=%d durable checkpoint=%d leo=%d role=%v progress=%v)", call.through, cover, st.HW, st.CheckpointHW, dur, st.LEO, st.Role, st.Progress)
+				}
+				if call.result.Deleted > 0 {
+					sawTrim = true
+				}
+			}
+			after := verifC10PresentSeqs(cs)
+			for seq := range before {
+				if !after[seq] && seq > cover {
+					fail("row %d was physically deleted although only %d is covered (durable checkpoint=%d)", seq, cover, dur)
+				}
+			}
+			if ferr != nil {
+				return
+			}
+			if res.BlockedReason != "" {
+				sawBlocked = true
+				if res.BlockedReason == ch.RetentionBlockedMinISRLag {
+					sawISRBlock = true
+				}
+				if res.BlockedReason == ch.RetentionBlockedCheckpointLag {
+					sawCpLagBlock = true
+					if reappliedAfterFailedCp {
+						sawFailedCpReappliedStillBlocked = true
+					}
+				}
+				if res.Deleted != 0 {
+					fail("blocked (%s) retention apply deleted %d rows", res.BlockedReason, res.Deleted)
+				}
+			}
+			note("→%s deleted=%d", res.BlockedReason, res.Deleted)
+			if res.DeletedThroughSeq > cover {
+				fail("apply reports rows deleted through %d, covered only through %d", res.DeletedThroughSeq, cover)
+			}
+		}
 
 		actions := map[string]func(*rapid.T){
 			"grow": func(rt *rapid.T) {
@@ -198,6 +493,8 @@ func TestVerifC10ReactorRetention(t *testing.T) {
 				st.HW += uint64(rapid.IntRange(0, int(st.LEO-st.HW)).Draw(rt, "adv"))
 				note("commit→hw=%d", st.HW)
 			},
+			// a checkpoint that succeeded (leader lifecycle / follower stop): the
+			// harness writes it and publishes it, as the package's own tests do
 			"checkpoint": func(rt *rapid.T) {
 				if st.CheckpointHW > st.HW {
 					rt.Skip("nothing to checkpoint")
@@ -208,6 +505,30 @@ func TestVerifC10ReactorRetention(t *testing.T) {
 				}
 				st.CheckpointHW = cp
 				note("checkpoint→%d", cp)
+			},
+			// the follower's committed-HW checkpoint, submitted and completed by
+			// the reactor itself through the worker pool, with a generated fault
+			"reactorCheckpoint": func(rt *rapid.T) {
+				if st.Role != ch.RoleFollower || st.HW <= st.CheckpointHW || rc.committedCheckpointOp != 0 {
+					rt.Skip("no committed checkpoint due")
+				}
+				fault := rapid.SampledFrom([]string{verifC10FaultNone, verifC10FaultNone, verifC10FaultCpErr, verifC10FaultCpCancel, verifC10FaultCpLostAck}).Draw(rt, "fault")
+				rec.takeCheckpoints()
+				rec.arm(fault)
+				now := time.Now() // only compared with the due time set right here
+				rc.committedCheckpointDue = now.Add(-time.Second)
+				r.trySubmitCommittedCheckpoint(rc, now)
+				if rc.committedCheckpointOp == 0 {
+					rec.disarm()
+					rt.Fatalf("VERIF-MACHINERY committed checkpoint was not submitted")
+				}
+				pump("committed checkpoint", func() bool { return rc.committedCheckpointOp == 0 })
+				_, hit := rec.disarm()
+				sawReactorCp = true
+				if hit && fault != verifC10FaultNone {
+					sawReactorCpFailed = true
+				}
+				note("reactorCheckpoint(hw=%d,fault=%s)→cp=%d durable=%d", st.HW, fault, st.CheckpointHW, durable().CheckpointHW)
 			},
 			"progress": func(rt *rapid.T) {
 				node := ch.NodeID(rapid.IntRange(2, 3).Draw(rt, "node"))
@@ -230,90 +551,25 @@ func TestVerifC10ReactorRetention(t *testing.T) {
 				}
 				note("role=%v", st.Role)
 			},
-			"apply": func(rt *rapid.T) {
-				through := uint64(rapid.IntRange(1, int(st.LEO)+2).Draw(rt, "through"))
-				opts := ch.RetentionApplyOptions{}
-				if rapid.Bool().Draw(rt, "hasMaxMessages") {
-					opts.MaxTrimMessages = rapid.IntRange(1, 3).Draw(rt, "maxMessages")
+			// process restart: the runtime state is dropped and rebuilt from what
+			// the store holds; the authoritative boundary comes back with the meta
+			"restart": func(rt *rapid.T) {
+				if rapid.IntRange(0, 3).Draw(rt, "do") != 0 {
+					rt.Skip("no restart")
 				}
-				if rapid.IntRange(0, 2).Draw(rt, "hasMaxBytes") == 0 {
-					opts.MaxTrimBytes = rapid.IntRange(1, 12).Draw(rt, "maxBytes")
+				if st.RetentionThroughSeq > meta.RetentionThroughSeq {
+					meta.RetentionThroughSeq = st.RetentionThroughSeq
 				}
-				cover := verifC10Cover(st)
-				before := verifC10PresentSeqs(cs)
-				if through < st.RetentionThroughSeq {
-					sawRegress = true
-				}
-				if through > st.LEO {
-					sawOvershoot = true
-				}
-				note("apply(through=%d,%+v) [hw=%d cp=%d leo=%d role=%v cover=%d]", through, opts, st.HW, st.CheckpointHW, st.LEO, st.Role, cover)
-				rec.takeTrims()
-				fut := NewFuture()
-				r.handleApplyRetentionBoundary(Event{Kind: EventApplyRetentionBoundary, Key: meta.Key, Future: fut, Context: ctx,
-					RetentionApply: ch.RetentionApplyRequest{ChannelID: id, ThroughSeq: through, Options: opts}})
-				// drive worker completions until the request is answered
-				deadline := time.After(30 * time.Second)
-				var result Result
-				var ferr error
-				done := false
-				for !done {
-					actx, acancel := context.WithTimeout(ctx, time.Millisecond)
-					result, ferr = fut.Await(actx)
-					acancel()
-					if ferr == nil || (ferr != context.DeadlineExceeded && actx.Err() == nil) {
-						done = true
-						break
-					}
-					select {
-					case wr := <-sink.results:
-						r.handleWorkerResult(Event{Kind: EventWorkerResult, Worker: wr})
-					case <-deadline:
-						rt.Fatalf("VERIF-MACHINERY retention request not answered in 30s")
-					case <-time.After(2 * time.Millisecond):
-					}
-				}
-				// let stragglers (checkpoint completions) be applied too
-				for more := true; more; {
-					select {
-					case wr := <-sink.results:
-						r.handleWorkerResult(Event{Kind: EventWorkerResult, Worker: wr})
-					case <-time.After(3 * time.Millisecond):
-						more = false
-					}
-				}
-				nApply++
-				if ferr != nil {
-					fail("ApplyRetentionBoundary(through=%d): %v", through, ferr)
-				}
-				res := result.RetentionApply
-				for _, call := range rec.takeTrims() {
-					if call.through > cover {
-						fail("physical trim issued through %d although only %d is covered (hw=%d checkpoint=%d leo=%d role=%v progress=%v)", call.through, cover, st.HW, st.CheckpointHW, st.LEO, st.Role, st.Progress)
-					}
-					if call.result.Deleted > 0 {
-						sawTrim = true
-					}
-				}
-				after := verifC10PresentSeqs(cs)
-				for seq := range before {
-					if !after[seq] && seq > cover {
-						fail("row %d was physically deleted although only %d is covered", seq, cover)
-					}
-				}
-				if res.BlockedReason != "" {
-					sawBlocked = true
-					if res.BlockedReason == ch.RetentionBlockedMinISRLag {
-						sawISRBlock = true
-					}
-					if res.Deleted != 0 {
-						fail("blocked (%s) retention apply deleted %d rows", res.BlockedReason, res.Deleted)
-					}
-				}
-				if res.DeletedThroughSeq > cover {
-					fail("apply reports rows deleted through %d, covered only through %d", res.DeletedThroughSeq, cover)
+				boot()
+				sawRestart = true
+				note("restart→[hw=%d cp=%d leo=%d phys=%d]", st.HW, st.CheckpointHW, st.LEO, st.PhysicalRetentionThroughSeq)
+				if st.PhysicalRetentionThroughSeq > st.CheckpointHW {
+					fail("restarted node loads a physical trim boundary %d above its checkpointed watermark %d", st.PhysicalRetentionThroughSeq, st.CheckpointHW)
 				}
 			},
+			"apply": func(rt *rapid.T) { applyBoundary(rt) },
+			// registered twice: retention passes are the subject of this layer
+			"applyAgain": func(rt *rapid.T) { applyBoundary(rt) },
 			"": func(rt *rapid.T) {
 				cur := snap()
 				if cur.ret < prev.ret || cur.local < prev.local || cur.phys < prev.phys || cur.sLocal < prev.sLocal || cur.sPhys < prev.sPhys {
@@ -323,17 +579,47 @@ func TestVerifC10ReactorRetention(t *testing.T) {
 					fail("physical boundary ahead of the logical one: %+v", cur)
 				}
 				prev = cur
+				// what a restarted node would see: nothing above the durable
+				// checkpointed watermark may be gone
+				d := durable()
+				if cur.sPhys > d.CheckpointHW {
+					fail("store is physically trimmed through %d but its durable checkpoint HW is %d", cur.sPhys, d.CheckpointHW)
+				}
+				// (sequences skipped by a boundary adopted beyond the log end never
+				// existed, so only rows that were once stored are judged)
+				present := verifC10PresentSeqs(cs)
+				for seq := range present {
+					everStored[seq] = true
+					maxStored = max(maxStored, seq)
+				}
+				for seq := d.CheckpointHW + 1; seq <= maxStored; seq++ {
+					if everStored[seq] && !present[seq] {
+						fail("stored row %d is gone from the store although the durable checkpoint HW is %d (leo=%d)", seq, d.CheckpointHW, d.LEO)
+					}
+				}
 			},
 		}
 		rt.Repeat(actions)
 
 		k.Key("reactor", strings.Join(trace, ";"))
-		k.SetNonTrivial(sawRegress && nApply > 1)
+		k.SetNonTrivial((sawRegress && nApply > 1) || sawFailedCpReapplied)
 		k.LabelIf(sawRegress, "reactor: regressing boundary update (non-trivial)")
 		k.LabelIf(sawBlocked, "reactor: physical trim blocked (HW / checkpoint / LEO / ISR lag)")
+		k.LabelIf(sawCpLagBlock, "reactor: trim blocked by checkpoint lag")
 		k.LabelIf(sawISRBlock, "reactor: trim blocked by an ISR member's progress")
 		k.LabelIf(sawTrim, "reactor: physical trim deleted rows")
 		k.LabelIf(sawOvershoot, "reactor: boundary beyond the log end")
+		k.LabelIf(sawRetry, "reactor: same boundary applied again (retry)")
+		k.LabelIf(sawRetentionCpOK, "reactor: retention-owned checkpoint written")
+		k.LabelIf(sawRetentionCpFailed, "reactor: fault: retention-owned checkpoint write failed (error / cancelled, nothing durable)")
+		k.LabelIf(sawRetentionCpLostAck, "reactor: fault: retention-owned checkpoint durable but reported failed")
+		k.LabelIf(sawFailedCpReapplied, "reactor: retention-owned checkpoint write failed, boundary re-applied (non-trivial)")
+		k.LabelIf(sawFailedCpReappliedStillBlocked, "reactor: retention-owned checkpoint write failed, boundary re-applied, still blocked by checkpoint lag")
+		k.LabelIf(sawTrimFault, "reactor: fault: TrimMessagesThrough error reached the request")
+		k.LabelIf(sawAdoptFault, "reactor: fault: AdoptRetentionBoundary error reached the request")
+		k.LabelIf(sawReactorCp, "reactor: committed checkpoint through the reactor (follower)")
+		k.LabelIf(sawReactorCpFailed, "reactor: fault: committed checkpoint write failed")
+		k.LabelIf(sawRestart, "reactor: restart from the store")
 		k.Sample(func() any { return "reactor: " + strings.Join(trace, " ; ") })
 	})
 }
